@@ -169,6 +169,7 @@ func (ex *Exec) resetPath(prefix []decision) {
 	ex.globals = map[*ssa.Global]*V{}
 	ex.inited = map[*ssa.Package]bool{}
 	ex.pools = map[*V][]V{}
+	ex.slotIDs = nil
 	ex.bufID = 0
 	ex.depth = 0
 	ex.path = &Path{prefix: prefix, known: map[int]bool{}, ndSet: map[string]bool{}, reached: map[string]bool{}}
